@@ -357,8 +357,29 @@ func finish(rep *Report, verif string, db *ContractDB, t0 time.Time) int {
 		model                bool
 	}
 	var fails []failure
+	anyGroups := map[string]string{} // cover-any name -> "sat" if some path is sat
+	anySrc := map[string]string{}
+	for _, ob := range rep.Obs {
+		if ob.Expect == "sat-any" {
+			if _, ok := anyGroups[ob.Name]; !ok {
+				anyGroups[ob.Name] = ""
+				anySrc[ob.Name] = ob.Src
+			}
+			if ob.Result == "sat" || ob.Result == "unknown" || ob.Result == "timeout" {
+				// unknown: the solver could not refute reachability; not evidence of vacuity
+				anyGroups[ob.Name] = "sat"
+			}
+		}
+	}
 	for _, ob := range rep.Obs {
 		solverS += ob.Seconds
+		if ob.Expect == "sat-any" {
+			covers++
+			if ob.Result == "sat" {
+				coversSat++
+			}
+			continue
+		}
 		if ob.Expect == "sat" {
 			covers++
 			if ob.Result == "sat" {
@@ -378,6 +399,11 @@ func finish(rep *Report, verif string, db *ContractDB, t0 time.Time) int {
 			continue
 		}
 		fails = append(fails, failure{name: ob.Name, detail: fmt.Sprintf("kind=%s src=%s path=%s result=%s solver=%s\n%s", ob.Kind, ob.Src, ob.Path, ob.Result, ob.Solver, ob.Output), script: ob.Script, model: ob.Result == "sat"})
+	}
+	for name, r := range anyGroups {
+		if r != "sat" {
+			fails = append(fails, failure{name: name, detail: "vacuity: the antecedent of this case-table row is unreachable on every returning path (" + anySrc[name] + ")"})
+		}
 	}
 	for _, e := range rep.Errs {
 		fails = append(fails, failure{name: "engine:" + e, detail: e})
